@@ -286,8 +286,81 @@ fn cli_comments(rep: &Report, n: usize, seed: u64) {
     });
 }
 
+/// a constant written as OFFSET of a data label must emit exactly what the literal offset emits; the offset
+/// itself comes from the independently computed data image
+fn offset_spelling(rep: &Report, n: usize, seed: u64) {
+    par_for(n, 8, |i| {
+        let core = i < 60;
+        let mut rng = if core { Rng::new(0xC110).fork(i as u64) } else { Rng::new(seed).fork(0xC110_0000 + i as u64) };
+        let (mut data, bl, wl) = rand_data(&mut rng, 2, 2);
+        if rng.chance(1, 3) {
+            data.insert(0, DataItem::Set(rng.u16()));
+        }
+        let img = data_image(&data);
+        if img.overflow {
+            return;
+        }
+        let dtext = Program { data: data.clone(), items: vec![] }.render(&mut Spell::random(rng.fork(1)), &Layout::plain()).text;
+        let names: Vec<String> = bl.iter().chain(wl.iter()).cloned().collect();
+        let tpls = ["mov ax, {}", "add bx, {}", "cmp word [si], {}", "mov dx, word [bx, {}]", "mov al, byte [{}]", "lea di, word [bp, si, {}]", "sub word es[di, {}], cx", "print mem {} -> 1048575", "print mem : {}", "mov cl, {}", "and byte [bx], {}"];
+        let mut lit = format!("{}start:\n", dtext);
+        let mut off = lit.clone();
+        let mut used = 0;
+        for name in &names {
+            let o = match img.labels.get(name) {
+                Some(o) => *o,
+                None => continue,
+            };
+            for _ in 0..3 {
+                let t = tpls[rng.below(tpls.len())];
+                let byte_pos = t.starts_with("mov cl") || t.starts_with("and byte");
+                if byte_pos && o > 255 {
+                    continue;
+                }
+                lit.push_str(&t.replace("{}", &format!("{}", o)));
+                lit.push('\n');
+                off.push_str(&t.replace("{}", &format!("{} {}", if rng.chance(1, 2) { "offset" } else { "OFFSET" }, name)));
+                off.push('\n');
+                used += 1;
+            }
+        }
+        if used == 0 {
+            return;
+        }
+        rep.eval(1);
+        match (assemble(&lit), assemble(&off)) {
+            (Ok(a), Ok(b)) => {
+                rep.count("OFFSET-spelled constants compared with their literal spelling", used as u64);
+                rep.distinct_str(&format!("offset-spelling|{}", used));
+                if a.code != b.code {
+                    let k = (0..a.code.len().min(b.code.len())).find(|k| a.code[*k] != b.code[*k]).unwrap_or(0);
+                    rep.fail(Failure {
+                        sig: "spelling:offset:constant".into(),
+                        what: "C11: a constant written as OFFSET of a data label emits a different instruction than the same constant written as a number".into(),
+                        witness: format!("{{\"kind\": \"src\", \"source\": {}, \"literal_spelling\": {}, \"emitted_offset\": {}, \"emitted_literal\": {}}}", json_str(&off), json_str(&lit), json_str(b.code.get(k).map(|s| s.as_str()).unwrap_or("")), json_str(a.code.get(k).map(|s| s.as_str()).unwrap_or(""))),
+                        core_item: if core { Some(format!("{}|{}", i, k)) } else { None },
+                    });
+                }
+            }
+            (Ok(_), Err(e)) => {
+                rep.fail(Failure {
+                    sig: "spelling:offset:rejected".into(),
+                    what: "C11: a program is accepted with a literal constant but refused when the same constant is written as OFFSET of a data label".into(),
+                    witness: format!("{{\"kind\": \"src\", \"source\": {}, \"error\": {}}}", json_str(&off), json_str(&format!("{:?}", e))),
+                    core_item: if core { Some(format!("{}", i)) } else { None },
+                });
+            }
+            _ => rep.count("offset-spelling programs refused in their literal form (not judged)", 1),
+        }
+        if i == 0 {
+            rep.sample(format!("offset spelling {:?} vs literal {:?}", off, lit));
+        }
+    });
+}
+
 pub fn run(rep: &Report) {
     case_sensitive_labels(rep);
+    offset_spelling(rep, if rep.thorough() { 40_000 } else { 600 }, rep.seed);
     // deterministic core
     par_for(400, 8, |i| {
         let mut rng = Rng::new(0xC11).fork(i as u64);
@@ -306,4 +379,4 @@ pub fn run(rep: &Report) {
     rep.floor("programs assembled", rep.evals(), 5000);
 }
 
-pub const RULE: &str = "random programs rendered from an abstract syntax tree (all instruction classes and operand forms, data definitions, labels, procedures, macros) under random spelling choices. (1) structural: every emitted line is decoded by an independent reader and must denote the same operation with the same operands in the same roles (constants modulo operand width, xchg unordered, synonyms folded), one per source instruction in source order, labels/procedures resolving to the same instruction; data lines likewise. (2) metamorphic: re-renderings varying one dimension at a time (case, radix, white space / line breaks / several instructions per line, ';' comments through the driver's stripping rule) and all together must emit identical code, data and label maps. Labels differing only in case stay distinct. The comment layer is cross-checked on the real binary's hook trace. Distinct = instruction class resp. CLI trace length.";
+pub const RULE: &str = "random programs rendered from an abstract syntax tree (all instruction classes and operand forms, data definitions, labels, procedures, macros) under random spelling choices. (1) structural: every emitted line is decoded by an independent reader and must denote the same operation with the same operands in the same roles (constants modulo operand width, xchg unordered, synonyms folded), one per source instruction in source order, labels/procedures resolving to the same instruction; data lines likewise. (2) metamorphic: re-renderings varying one dimension at a time (case, radix, white space / line breaks / several instructions per line, ';' comments through the driver's stripping rule) and all together must emit identical code, data and label maps; constants written as OFFSET of a data label (offset taken from the independently computed data image) must emit what the literal number emits, in immediate, displacement, direct-address and print positions. Labels differing only in case stay distinct. The comment layer is cross-checked on the real binary's hook trace. Distinct = instruction class resp. CLI trace length.";
